@@ -479,6 +479,9 @@ func (g *c08Gen) family(f int) {
 		two := r.Intn(3) == 0
 		for i, n := 0, 2+r.Intn(2); i < n; i++ {
 			var o interface{} = obj
+			if !two && r.Intn(4) == 0 {
+				o = []string{obj, obj} // the same object listed twice: two entries, each under its own hold of the object's lock
+			}
 			if two {
 				if (i+r.Intn(2))%2 == 0 {
 					o = []string{st.Note1, st.Note2}
